@@ -1,4 +1,5 @@
 import Qentem.Proofs.TmplText
+import Qentem.Proofs.ExprScanSafe
 import Qentem.Generated.Tmpl
 /-!
 # C01 — rendering any template text with any value is memory-safe and terminates
@@ -8,6 +9,7 @@ Proved here (for every content, every character width — code units are `Nat`):
   current headers are the same for the four widths and are the documented tag words.
 * `finder_safe_total`  `Finder::Next` never reads at or beyond `length`, returns an offset
   `≤ length`, reports "no match" only at the end of the content, and every match moves forward.
+* `expr_scan_safe`  the expression scanner inside a tag performs no out-of-range read.
 * `parse_text`, `render_text`  content without `{` and `<` parses to no tags without a failing read
   and renders to itself for every value.
 Open (statements below, decided run by run through the correspondence / sanitizer streams of
@@ -67,6 +69,18 @@ theorem render_text {R : Type} [RealLike R] (cx : RCtx R) (cfg : ScanCfg R)
 
 example : NoTagStart [104, 105, 32, 125, 62, 38] := by
   intro x hx; simp at hx; rcases hx with h | h | h | h | h | h <;> subst h <;> decide
+
+/-- `expr_scan_safe`: scanning an expression that lies inside a tag (`endO < length`: the unit at
+`endO` is the tag's own `}` or closing quote) performs no out-of-range read — every content, every
+range, every nesting of parentheses, every number reader. -/
+theorem expr_scan_safe {R : Type} (cfg : ScanCfg R) (c : List Nat) (off endO : Nat)
+    (he : endO < c.length) : Safe (parseTop cfg c off endO) (fun _ => True) :=
+  parseTop_safe cfg c off endO he
+
+/-- the hypothesis is needed: the public `ParseExpressions("1<", 2)` looks one unit past the
+buffer (out of contract: no terminator).  Observed on the real code as an ASan report. -/
+example : parseTop ({ readNum := fun _ => none } : ScanCfg Rat) [49, 60] 0 2 =
+    .error (.oobRead 2 2) := by rfl
 
 /-- Open statement: the tag scanner never fails a checked read (for every content and every
 number reader). -/
